@@ -220,5 +220,7 @@ EXTRA = {
            "Two-step functions failing in their second step on a dtype.",
     "C14": "Seeds with extra leading length-1 axes (contiguous and strided) on contiguous, transposed, F-ordered and strided terminals.",
     "C15": "Shapes that need a copy are refused inside no_autodiff as with tracking, and the view keeps writing through.",
+    "C16": "Integer lane (concrete, unpatched library): softmax, logsoftmax, softmax_crossentropy on int8/uint8/int16/int64/bool inputs at the ends "
+           "of their ranges against the same call on float64 (machine integers wrap; the symbolic lanes compute over the reals).",
     "C17": "linspace/logspace/geomspace with array-like end points, axis and base; timedelta64, bytes and structured data at the dtype gate.",
 }
